@@ -262,10 +262,12 @@ def run(ctx):
     w = Walker(ctx, g, ad, 'replay.OmegaModels')
     ne = w.cover_edges()
     # histories on ONE object: Construct; Calculate(g1); Calculate(g2) [; Calculate(g3)] - an evaluation must not depend on earlier ones
-    w2 = Walker(ctx, g, OmegaAdapter(ctx, terms, 12, nmax=1000 if thorough else 100), 'replay.OmegaModels.histories')
+    # (rejected constructions leave no object behind: they are self-loops of the initial state, covered by the edge pass above)
+    gh = Graph([e for e in res.records['EDGE'] if not (e['l']['act'] == 'Construct' and e['l']['raises'] != 'none')], res.records.get('INIT'))
+    w2 = Walker(ctx, gh, OmegaAdapter(ctx, terms, 12, nmax=1000 if thorough else 100), 'replay.OmegaModels.histories')
     npaths, complete = w2.all_paths(3, budget=None)
     if thorough:        # three evaluations in a row on the short chains
-        w3 = Walker(ctx, g, OmegaAdapter(ctx, terms, 7, nmax=10), 'replay.OmegaModels.histories3')
+        w3 = Walker(ctx, gh, OmegaAdapter(ctx, terms, 7, nmax=10), 'replay.OmegaModels.histories3')
         n3, _ = w3.all_paths(4, budget=None)
         npaths += n3
     ctx.stage('replay.OmegaModels', graph_states=len(g.state), graph_edges=g.n_edges, edges_replayed=ne, paths=npaths, real_calls=w.steps + w2.steps,
